@@ -165,6 +165,45 @@ def replay_estcost(job, obl, inputs, workdir):
     return rc == 1, out
 
 
+REPLAY_FIXVIS = r'''
+// Native replay for the outer-edge visibility obligation: a free-floating connector end that may only leave OUTWARDS and sits on the trailing
+// (largest x / largest y) or leading edge of the scene must still get an orthogonal route (axis-parallel segments); the REAL router.
+#include "libavoid/libavoid.h"
+#include <cstdio>
+using namespace Avoid;
+int main() {
+  int bad = 0;
+  // end point B at the extreme of the scene in direction `dir`, allowed to leave only in that direction
+  const struct { double bx, by; ConnDirFlags dir; const char *what; } S[4] = {
+    { 60, 120, ConnDirDown, "largest y, may only go down" }, { 160, 40, ConnDirRight, "largest x, may only go right" },
+    { 60, -60, ConnDirUp, "smallest y, may only go up" }, { -80, 40, ConnDirLeft, "smallest x, may only go left" } };
+  for (int k = 0; k < 4; ++k) {
+    Router *router = new Router(OrthogonalRouting);
+    router->setRoutingParameter(segmentPenalty, 50);
+    Rectangle r1(Point(20, 0), Point(100, 30)), r2(Point(20, 50), Point(100, 80));
+    new ShapeRef(router, r1); new ShapeRef(router, r2);
+    ConnRef *c = new ConnRef(router, ConnEnd(Point(0, 20)), ConnEnd(Point(S[k].bx, S[k].by), S[k].dir));
+    router->processTransaction();
+    const PolyLine& r = c->displayRoute();
+    bool ok = r.size() >= 2;
+    for (size_t i = 1; i < r.size(); ++i) if (r.ps[i].x != r.ps[i - 1].x && r.ps[i].y != r.ps[i - 1].y) ok = false;
+    if (!ok) { printf("end point on the outer edge (%s): route", S[k].what); for (size_t i = 0; i < r.size(); ++i) printf(" (%g,%g)", r.ps[i].x, r.ps[i].y); printf(" has a slanted segment\n"); bad++; }
+    delete router;
+  }
+  if (bad) { printf("REPRODUCED: %d outer-edge end point(s) without an orthogonal route\n", bad); return 1; }
+  printf("not reproduced\n"); return 0;
+}
+'''
+
+
+def replay_fixvis(job, obl, inputs, workdir):
+    lib = build_lib("libavoid", workdir)
+    rc, out = native_run(REPLAY_FIXVIS, workdir, "replay_fixvis", extra=["-I", COLA], libs=[lib], timeout=300)
+    if rc is None:
+        return False, out
+    return rc == 1, out
+
+
 REPLAY_SIMPLIFY = r'''
 // Native replay: Polygon::simplify() on short orthogonal routes must keep every bend (every output segment axis-parallel).
 #include "libavoid/geomtypes.h"
@@ -269,6 +308,31 @@ def jobs(tier):
                   domain="every number of arrival candidates up to 10^6, ghost candidate index K; estimatedCostSpecific behind a contract; costs as 64-bit machine integers "
                          "(`+` any function of its operands, `<` a total order; no signed-overflow check on purpose): transfers to doubles when no NaN arises",
                   expect=[r'w_estimatedCost\.postcondition', r'loop_invariant_base', r'loop_invariant_step', r'loop_decreases']))
+    # ---- fixConnectionPointVisibilityOnOutsideOfVisibilityGraph: connection points on the leading AND the trailing edge of the sweep get the
+    #      extra visibility (without it an endpoint that may only leave outwards stays isolated and the router falls back to a straight, slanted line)
+    OCF = "libavoid/orthogonal.cpp"
+    fx = slice_func(OCF, r'^void fixConnectionPointVisibilityOnOutsideOfVisibilityGraph\(Event \*\*events,', "fixConnectionPointVisibilityOnOutsideOfVisibilityGraph")
+    vi_pre = open(os.path.join(VERIF, "prelude", "avoid_vertinf.h")).read()
+    evt = slice_region("libavoid/scanline.h", r'^// Note: Open must come first\.\ntypedef enum \{', r'\} EventType;', "EventType (scanline.h)")
+    ev_pre = ("namespace Avoid {\nclass Obstacle; class ShiftSegment;\n" + evt.text + "\n// scanline.h: data members the function reaches, in the real order (layout cross-checked)\n"
+              "class Node { public: void *_verif_vptr; Obstacle *v; VertInf *c; ShiftSegment *ss; double pos; };\n"
+              "struct Event { EventType type; Node *v; double pos; };\n}\n")
+    layout.check_layout("avoid_scanline_event", pre + vi_pre + ev_pre, ["libavoid/vertices.h", "libavoid/scanline.h"],
+                        [("Avoid::Event", ["type", "v", "pos"]), ("Avoid::Node", ["v", "c", "ss", "pos"]), ("Avoid::VertInf", ["visDirections"])], sizes=["Avoid::Event"])
+    fx_cxx = ("#include <verif_base.h>\n" + pre + vi_pre + ev_pre + "namespace Avoid {\n" + fx.text + "\n}\n"
+              "// scene objects live on the C++ side (no C mirror of VertInf needed); the C harness sets and reads them through these accessors\n"
+              "static Avoid::VertInf *verif_vip[4];   // allocated raw: VertInf has a Point member whose constructor is not part of this TU\n"
+              "#define verif_vi(i) (verif_vip[i])\n"
+              "static Avoid::Node verif_nd[4]; static Avoid::Event verif_ev[4]; static Avoid::Event *verif_evp[4];\n"
+              'extern "C" void *malloc(size_t);\n'
+              'extern "C" void verif_setup(int i, bool has, double pos, unsigned vis) { verif_vip[i] = (Avoid::VertInf *)malloc(sizeof(Avoid::VertInf)); __CPROVER_assume(verif_vip[i] != 0); verif_vi(i)->visDirections = vis; verif_nd[i].c = has ? verif_vi(i) : 0; verif_ev[i].v = &verif_nd[i]; '
+              'verif_ev[i].pos = pos; verif_evp[i] = &verif_ev[i]; }\n'
+              'extern "C" unsigned verif_vis(int i) { return verif_vi(i)->visDirections; }\n'
+              'extern "C" void w_fixvis(size_t total, unsigned added) { Avoid::fixConnectionPointVisibilityOnOutsideOfVisibilityGraph(verif_evp, total, added); }\n')
+    js.append(Job("outer_edge_visibility_fix", "B", spec, "h_fixvis", cxx=fx_cxx, defines=["JOB_fixvis"], slices=[fx, evt], unwind=6, flags=["--sat-solver", "cadical"], backend="sat:cadical",
+                  bound="0 to 4 sweep events sorted by position (loops unwound 6 times with unwinding assertions)",
+                  domain="every sorted sequence of up to 4 events (ties included), each with or without a connection point, every visibility flag word",
+                  expect=[r'h_fixvis\.assertion'], replay=replay_fixvis))
     # ---- Polygon::simplify: the decision to drop a route point (expression fragment), vecDir behind a contract that demands tolerance 0
     simp = slice_func("libavoid/geomtypes.cpp", r'^Polygon Polygon::simplify\(void\) const', "Polygon::simplify")
     hdr_, sbody = fragment_loop(simp, r'for \(size_t j = 2; j < simplified\.size\(\); \)', "Polygon::simplify [loop body]")
@@ -308,6 +372,8 @@ ASSUMPTIONS = [
     "(within one call a function of the candidate and its directions); the argument uses only that `+` is a function of its operands and `<` a total order, "
     "which holds for doubles when no NaN arises (finite estimates and displacements) -- the floating-point version of the same obligation did not finish on any back end",
     "Polygon::simplify: only the decision to drop a point is under contract (exact collinearity, tolerance 0 at the call site); vector erase and checkpoint renumbering are not",
+    "outer_edge_visibility_fix is a BOUNDED stand-in (up to 4 sorted sweep events): connection points at the first and at the last scan position, and only those, get the "
+    "added visibility; the events' sortedness is a precondition (they come out of qsort in generateStaticOrthogonalVisGraph)",
     "NOT decided (residue): the visibility graph contains an optimal path, turn pruning never loses it (its transposition symmetry is an obligation of the C20 check), "
     "every raw route segment is axis-parallel, agreement with a grid-search oracle on scenes",
 ]
